@@ -197,8 +197,44 @@ def topk_rule(chk, ctx):
         return
     it = site.iter
     seq = it.value if isinstance(it, ast.Subscript) else it
+    if isinstance(seq, ast.Name):
+        # a local holding the ranking: its single definition
+        defs = [a.value for a in ast.walk(fn) if isinstance(a, ast.Assign) and any(isinstance(t, ast.Name) and t.id == seq.id
+                                                                                  for t in a.targets)]
+        if len(defs) == 1:
+            seq = defs[0]
     verdict, why = None, f"unrecognised ranking idiom {ast.unparse(seq)[:80]}"
-    if isinstance(seq, ast.Call) and getattr(seq.func, "id", None) == "sorted" and seq.args:
+    src = seq.args[0] if isinstance(seq, ast.Call) and getattr(seq.func, "id", None) == "sorted" and seq.args else None
+    idx_src = isinstance(src, ast.Call) and getattr(src.func, "id", None) == "range" and len(src.args) == 1 and (
+        ast.unparse(src.args[0]) in ("snapshots", "len(weights)"))
+    if idx_src:
+        # sorted(range(snapshots), key=lambda i: +-weights[i] [, reverse=...]): positions ranked by their weight
+        kw = {k.arg: k.value for k in seq.keywords}
+        key, rev = kw.get("key"), kw.get("reverse")
+        sign = None
+        if isinstance(key, ast.Lambda) and len(key.args.args) == 1:
+            b, sg = key.body, 1
+            if isinstance(b, ast.UnaryOp) and isinstance(b.op, ast.USub):
+                sg, b = -1, b.operand
+            if isinstance(b, ast.Subscript) and isinstance(b.value, ast.Name) and b.value.id == "weights" \
+                    and isinstance(b.slice, ast.Name) and b.slice.id == key.args.args[0].arg:
+                sign = sg
+        elif isinstance(key, ast.Attribute) and ast.unparse(key) == "weights.__getitem__":
+            sign = 1
+        rev_known = rev is None or isinstance(rev, ast.Constant)
+        desc_flag = isinstance(rev, ast.Constant) and rev.value is True
+        labelled = [a for a in ast.walk(site) if isinstance(a, ast.Assign) and isinstance(a.targets[0], ast.Subscript)]
+        idx_ok = isinstance(site.target, ast.Name) and all(isinstance(a.targets[0].slice, ast.Name) and a.targets[0].slice.id == site.target.id
+                                                            for a in labelled)
+        if sign is None or not rev_known:
+            verdict, why = None, "ranking key is not +-weights[i] / reverse= is not a literal"
+        elif not idx_ok:
+            verdict, why = None, "labelled index is not the ranked position"
+        elif (desc_flag and sign == 1) or (not desc_flag and sign == -1):
+            verdict, why = True, "positions ranked by their weight, descending; RAM goes to the first k"
+        else:
+            verdict, why = False, "positions are ranked by weight ascending: RAM goes to the least-used positions"
+    elif isinstance(seq, ast.Call) and getattr(seq.func, "id", None) == "sorted" and seq.args:
         src = seq.args[0]
         enum_ok = isinstance(src, ast.Call) and getattr(src.func, "id", None) == "enumerate" and len(src.args) == 1 \
             and isinstance(src.args[0], ast.Name) and src.args[0].id == "weights"
@@ -395,7 +431,7 @@ def run(chk, ctx):
         if o.rule == "C03.SLICE":
             o.rule = "C14.BOUND"
     chk.describe("C14.BOUND", "at most the declared number of positions is labelled RAM")
-    shared.rule_config(chk, "C14.CONFIG", ctx.repo, classes=[CLS])
+    shared.rule_config(chk, "C14.CONFIG", ctx, classes=[CLS])
     clamp_rule(chk, ctx)
     topk_rule(chk, ctx)
     weights_rules(chk, ctx)
